@@ -309,7 +309,7 @@ def gen_cases(rng, tier, budget):
             r2 = rng.random()
             if r2 < 0.3:
                 os = [o for o in os if o in (IPCP_ALPHA[0], IPCP_ALPHA[12], IPCP_ALPHA[18])] or [IPCP_ALPHA[0]]
-            elif r2 < 0.6:
+            elif r2 < 0.75:
                 # nothing to reject: the packet is a Nak (wrong address / 0.0.0.0 / DNS 0.0.0.0) or an Ack
                 os = [rng.choice([IPCP_ALPHA[1], IPCP_ALPHA[2], IPCP_ALPHA[3], IPCP_ALPHA[5], IPCP_ALPHA[11],
                                   IPCP_ALPHA[17], IPCP_ALPHA[0], IPCP_ALPHA[12]]) for _ in range(rng.choice([1, 2, 3]))]
@@ -393,7 +393,14 @@ def gen_cases(rng, tier, budget):
             elif aaa not in bad_aaas:
                 start = aaa + "/none/" + rng.choice(["cf", "ok"])
             evs = [(e + rng.choice(["", "", "/none/cf", "/0a000008"])) if e[0] == "R" else e for e in evs]
+        lstart = start
+        if i % 6 == 2:
+            # DNS servers from AAA (primary and/or secondary); the LNS harness has no AAA DNS
+            start = "/".join((start.split("/") + ["none", "ok"])[:3]) + "/" + rng.choice(
+                [MAPPED + "01010101," + MAPPED + "02020202", MAPPED + "01010101,n", "n," + MAPPED + "02020202",
+                 MAPPED + "00000000," + MAPPED + "02020202", V6 + ",n"])
         cases.append("sess %s %s" % (start, " ".join(evs)))
+        start = lstart
         if i % 5 == 3 and aaa != "none" and aaa not in bad_aaas:
             # the same history on a session restored from a checkpoint (installInMemoryState) with that address
             cases.append("sess restore:%s %s" % (aaa[-8:], " ".join(e for e in evs)))
@@ -662,6 +669,8 @@ def _monitor(case, impl, out):
             for ev, p in zip(["start"] + f[2:], parts):
                 toks = p.split()
                 kv = dict(x.split("=", 1) for x in toks if "=" in x)
+                if ev == "start" and kv.get("lcp", "ok") != "ok":
+                    hit("LCP: the magic number our Configure-Request announces, looped back: %s" % kv.get("lcp"))
                 if pa is not None:
                     seen_pa.add(pa)
                 pa, a = kv.get("pa"), kv.get("a")
